@@ -3,6 +3,7 @@ CONSTANTS
   CharsM = {1, 2, 5}
   MaxPat = 2
   MaxFld = 3
+  M_DoIfDecidesAlone = TRUE
   D_AndRegexp = FALSE
-INVARIANTS TypeOK ImplRefinesDecl ImplMatchesDecl CondOrderIrrelevant InvertIsNegation Export
+INVARIANTS TypeOK ImplRefinesDecl ImplMatchesDecl CondOrderIrrelevant InvertIsNegation DoIfDecidesAlone Export
 CHECK_DEADLOCK FALSE
